@@ -292,7 +292,8 @@ func genNastyString(r *Rng) string {
 	case 9:
 		return "\xff\xfe" + r.Pick(plainWords) + "\xc3"
 	case 10:
-		return r.Pick([]string{"a=b", "a:b", "[x]", "; c", "# c", "a\\b", "a\\", "\\\"", "x;y", "'q'", "a\rb", "a\r", " ", " x", "x ", "　y"})
+		return r.Pick([]string{"a=b", "a:b", "[x]", "; c", "# c", "a\\b", "a\\", "\\\"", "x;y", "'q'", "a\rb", "a\r", " ", " x", "x ", "\u3000y",
+			"make -j4 # parallel", "issue #12", "a ; b", "a#b", "x\t; y", "http://10.0.0.1:8080/v1", "k:v:w", ":", "::", "a: b", "x = y ; z"})
 	case 11:
 		n := r.Pick([]string{"4090", "4095", "4096", "4097", "5000", "8192", "65530", "65536", "70000"})
 		nn, _ := strconv.Atoi(n)
@@ -392,6 +393,10 @@ func genStoreValue(r *Rng, kind string, nasty bool) V {
 			k := genStoreScalar(r, mapKeyKind(kind), false)
 			if mapKeyKind(kind) == "string" {
 				k = V{T: BStr(r.Pick(plainWords))} // non-empty, no ':', no surrounding blanks
+				if nasty && r.Chance(1, 3) {
+					// still inside the property's quantifier: non-empty, free of ':' and of surrounding whitespace
+					k = V{T: BStr(r.Pick([]string{"\"k", "\"k\"", "a\nb", "k=v", "#k", ";k", "[k]", "k k", "ключ", "k\x01", "k\\", "'k'", "k\tq", "\xffk", "k;#", "=k", "k="}))}
+				}
 			}
 			if seen[string(k.T)] {
 				continue
